@@ -4,6 +4,7 @@ import (
 	"fmt"
 	"sort"
 	"strings"
+	"time"
 
 	"verifh/fs3"
 	"verifh/walk"
@@ -15,6 +16,7 @@ func init() {
 		Level: "fault_enumeration",
 		Rule: "each case is one subject on a table with history (entries_per_node 2,3,4,4096; 5-80 pre-loaded rows; 1-3 earlier writers): (T) an explicit or autocommit transaction of 1-6 INSERT/UPDATE/DELETE statements, (M) the implicit merge commit of a read-write open over 2-4 unmerged versions, (V) s3db_vacuum with a cutoff that reclaims history. " +
 			"The subject runs once fault-free to count its K mutating requests and to record the rows before (D0) and after (D1); then for EVERY k in 0..K the pre-state is restored, the subject re-runs with the client crashing right after its k-th mutating request (all later requests fail, the connection is abandoned), and on the frozen bucket a read-only open, a read-write recovery open and another read-only open must each succeed and show exactly D0 or D1, all three the same, D1 if every statement and the COMMIT had reported success; the bucket walker must find every listed current version complete. " +
+			"For transactions two more interruptions run at the same positions with the same demands: request k fails once and the transaction is rolled back and retried on the same connection (every k; same write time, so the retry builds the nodes whose upload failed); request k blocks until the connection's deadline expires (2 seeded k). " +
 			"non-trivial = a subject with K>=3 whose crash points produced both outcomes (old and new) or whose flush wrote >=2 node objects; distinct = hash of (subject, K)",
 		Flavours: []string{"plain"},
 		Cases: func(tier string) int {
@@ -174,6 +176,11 @@ func runC04(c *Case) {
 	}
 	// runSubject executes the subject against store s (already holding the
 	// pre-state) and reports whether it was acknowledged.
+	// retry: a failed transaction (T) is rolled back and run once more on the same connection,
+	// faults cleared; the acknowledgement reported is then the second attempt's
+	retry := false
+	// deadline: the connection's deadline is set this many seconds ahead before the subject runs
+	deadline := 0
 	runSubject := func(s *fs3.Store, arm func(cl *fs3.Client)) (ack bool) {
 		ep := fs3.Endpoint(s.Name, "subj")
 		setPerm(ep, func(roots []string) []string { o := append([]string(nil), roots...); sort.Strings(o); return o })
@@ -201,22 +208,38 @@ func runC04(c *Case) {
 				return false
 			}
 			cn.SetWriteTime(tsec + 10)
+			if deadline > 0 {
+				cn.Exec("update s3db_conn set deadline=?", time.Now().UTC().Add(time.Duration(deadline)*time.Second).Format("2006-01-02 15:04:05"))
+			}
 			cl.ResetCounters()
 			arm(cl)
-			ok := true
-			if explicitTx {
-				if cn.Exec("begin") != nil {
-					ok = false
+			attempt := func() bool {
+				ok := true
+				if explicitTx {
+					if cn.Exec("begin") != nil {
+						ok = false
+					}
 				}
-			}
-			for _, sm := range stmts {
-				if err := cn.Exec(strings.ReplaceAll(sm.q, "%T", t), sm.args...); err != nil && errClass(err) == "error" {
-					ok = false
+				for _, sm := range stmts {
+					if err := cn.Exec(strings.ReplaceAll(sm.q, "%T", t), sm.args...); err != nil && errClass(err) == "error" {
+						ok = false
+					}
 				}
+				if explicitTx {
+					if cn.Exec("commit") != nil {
+						ok = false
+					}
+				}
+				return ok
 			}
-			if explicitTx {
-				if cn.Exec("commit") != nil {
-					ok = false
+			ok := attempt()
+			if !ok && retry {
+				cl.ClearFaults()
+				cn.Exec("rollback")
+				c.Count("retried_transactions", 1)
+				ok = attempt()
+				if ok {
+					c.Count("retried_transactions_acknowledged", 1)
 				}
 			}
 			return ok
@@ -264,37 +287,78 @@ func runC04(c *Case) {
 	c.Count("subjects_"+kind, 1)
 	sawOld, sawNew := false, false
 	same := firstDiff(d0, d1) == ""
-	for k := 0; k <= K && c.Res.Status != "violated"; k++ {
+	// besides the crash at every k, a transaction (T) is also: failed once at request k and retried on
+	// the same connection (every k), and cut off by the connection's deadline at request k (2 seeded k)
+	type point struct {
+		k    int
+		mode string
+	}
+	var points []point
+	deadlineAt := map[int]bool{}
+	if kind == "T" && K >= 1 {
+		deadlineAt[1+r.Intn(K)] = true
+		deadlineAt[1+r.Intn(K)] = true
+	}
+	for k := 0; k <= K; k++ {
+		points = append(points, point{k, "crash"})
+		if kind == "T" && k >= 1 {
+			points = append(points, point{k, "error-retry"})
+			if deadlineAt[k] {
+				points = append(points, point{k, "deadline"})
+			}
+		}
+	}
+	for _, pt := range points {
+		if c.Res.Status == "violated" {
+			break
+		}
+		k := pt.k
 		s2 := newStore()
 		s2.Restore(pre)
+		retry, deadline = pt.mode == "error-retry", 0
+		if pt.mode == "deadline" {
+			deadline = 2
+		}
 		acked := runSubject(s2, func(cl *fs3.Client) {
-			if k == 0 {
+			switch {
+			case pt.mode == "error-retry":
+				cl.AddFault(fs3.Fault{AtMut: k, Action: "error"})
+			case pt.mode == "deadline":
+				cl.AddFault(fs3.Fault{AtMut: k, Action: "block"})
+			case k == 0:
 				cl.AddFault(fs3.Fault{AtMut: 1, Action: "crash-before"})
-			} else {
+			default:
 				cl.AddFault(fs3.Fault{AtMut: k, Action: "crash-after"})
 			}
 		})
+		retry, deadline = false, 0
 		c.Count("crash_points", 1)
+		c.Count("points_"+pt.mode, 1)
 		if acked {
 			c.Count("crash_points_acknowledged", 1)
+		}
+		what := map[string]string{"crash": "crash after", "error-retry": "one failure, then a retry on the same connection, at", "deadline": "deadline expiring at"}[pt.mode]
+		sfx := ""
+		if pt.mode != "crash" {
+			sfx = ":" + pt.mode
 		}
 		frozen := s2.Snapshot()
 		var first []string
 		for i, ro := range []bool{true, false, true} {
 			d, err := freshDump(s2, ro, fmt.Sprintf("rec%d", i))
-			where := fmt.Sprintf("crash after mutating request %d of %d (acknowledged=%v), recovery open %d (readonly=%v)", k, K, acked, i+1, ro)
+			where := fmt.Sprintf("%s mutating request %d of %d (acknowledged=%v), recovery open %d (readonly=%v)", what, k, K, acked, i+1, ro)
 			if err != nil {
-				fail("open-fails", where+": "+err.Error())
+				fail("open-fails"+sfx, where+": "+err.Error())
 				break
 			}
 			isOld := firstDiff(d0, d) == ""
 			isNew := firstDiff(d1, d) == ""
 			if !isOld && !isNew {
-				fail("mixture", fmt.Sprintf("%s shows neither the old nor the new contents: vs old: %s; vs new: %s", where, firstDiff(d0, d), firstDiff(d1, d)))
+				fail("mixture"+sfx, fmt.Sprintf("%s shows neither the old nor the new contents: vs old: %s; vs new: %s", where, firstDiff(d0, d), firstDiff(d1, d)))
 				break
 			}
 			if acked && !isNew {
-				fail("acknowledged-but-old", where+" shows the old contents although the commit was acknowledged: "+firstDiff(d1, d))
+				fail("acknowledged-but-old"+sfx, where+" shows the old contents although the commit was acknowledged: "+firstDiff(d1, d))
 				break
 			}
 			if i == 0 {
@@ -307,7 +371,7 @@ func runC04(c *Case) {
 					}
 				}
 			} else if firstDiff(first, d) != "" {
-				fail("changes-after-recovery", where+" differs from the first recovery open: "+firstDiff(first, d))
+				fail("changes-after-recovery"+sfx, where+" differs from the first recovery open: "+firstDiff(first, d))
 				break
 			}
 		}
@@ -316,7 +380,7 @@ func runC04(c *Case) {
 			for _, wh := range []string{"current", "merged"} {
 				for _, n := range walk.VersionNames(pre, base, wh) {
 					if _, _, ok := walk.FindVersion(frozen, base, n); !ok {
-						fail("version-object-lost", fmt.Sprintf("crash after mutating request %d of %d: version %s existed under root/%s before and is now neither under root/current nor root/merged", k, K, n, wh))
+						fail("version-object-lost"+sfx, fmt.Sprintf("%s mutating request %d of %d: version %s existed under root/%s before and is now neither under root/current nor root/merged", what, k, K, n, wh))
 						break
 					}
 					c.Count("version_objects_tracked", 1)
@@ -328,7 +392,7 @@ func runC04(c *Case) {
 				v := walk.Walk(frozen, base, n)
 				c.Count("current_versions_walked", 1)
 				if len(v.Problems) > 0 {
-					fail("current-version-incomplete", fmt.Sprintf("crash after mutating request %d of %d: version %s listed under root/current: %s", k, K, n, v.Problems[0]))
+					fail("current-version-incomplete"+sfx, fmt.Sprintf("%s mutating request %d of %d: version %s listed under root/current: %s", what, k, K, n, v.Problems[0]))
 					break
 				}
 			}
